@@ -756,6 +756,11 @@ func (p *protocolV2) REQ(client *clientV2, params [][]byte) ([]byte, error) {
 		return nil, protocol.NewFatalClientErr(err, "E_INVALID",
 			fmt.Sprintf("REQ could not parse timeout %s", params[2]))
 	}
+	if maxMs := uint64(p.nsqd.getOpts().MaxReqTimeout / time.Millisecond); timeoutMs > maxMs {
+		// keep the conversion to time.Duration below from overflowing
+		// (anything above the max is clamped to it)
+		timeoutMs = maxMs + 1
+	}
 	timeoutDuration := time.Duration(timeoutMs) * time.Millisecond
 
 	maxReqTimeout := p.nsqd.getOpts().MaxReqTimeout
@@ -917,6 +922,12 @@ func (p *protocolV2) DPUB(client *clientV2, params [][]byte) ([]byte, error) {
 	if err != nil {
 		return nil, protocol.NewFatalClientErr(err, "E_INVALID",
 			fmt.Sprintf("DPUB could not parse timeout %s", params[2]))
+	}
+	if timeoutMs > uint64(p.nsqd.getOpts().MaxReqTimeout/time.Millisecond) {
+		// checked in milliseconds: the conversion to time.Duration below can overflow
+		return nil, protocol.NewFatalClientErr(nil, "E_INVALID",
+			fmt.Sprintf("DPUB timeout %d out of range 0-%d",
+				timeoutMs, p.nsqd.getOpts().MaxReqTimeout/time.Millisecond))
 	}
 	timeoutDuration := time.Duration(timeoutMs) * time.Millisecond
 
